@@ -816,8 +816,19 @@ func drawStr(t *rapid.T, depth int) L {
 	}
 	small := func() L { return L{K: "num", S: rapid.SampledFrom([]string{"1", "2", "3"}).Draw(t, "k")} }
 	idx := func() L {
-		if rapid.IntRange(0, 2).Draw(t, "idxexpr") == 0 {
+		switch rapid.IntRange(0, 5).Draw(t, "idxexpr") {
+		case 0:
 			return L{K: "bin", S: "+", A: []L{{K: "num", S: "1"}, {K: "num", S: rapid.SampledFrom([]string{"0", "1"}).Draw(t, "k")}}}
+		case 1:
+			// a call of a number-returning function as index
+			return rapid.SampledFrom([]L{
+				{K: "call", S: "ABS", A: []L{{K: "num", S: "2"}}},
+				{K: "call", S: "MAX", A: []L{{K: "num", S: "1"}, {K: "num", S: "2"}}},
+				{K: "call", S: "MIN", A: []L{{K: "num", S: "1"}, {K: "num", S: "3"}}},
+				{K: "call", S: "MOD", A: []L{{K: "num", S: "5"}, {K: "num", S: "3"}}},
+				{K: "call", S: "ROUND", A: []L{{K: "num", S: "1.25"}}},
+				{K: "call", S: "LEN", A: []L{{K: "str", S: "ab"}}},
+			}).Draw(t, "idxcall")
 		}
 		return small()
 	}
